@@ -74,8 +74,12 @@ PerSenderFIFO == \A r \in Receivers: \A i, j \in 1..Len(received[r]):
 \* nil is received only from a closed and drained channel
 NilOnlyAfterDrain == \A r \in Receivers: gotNil[r] => closed /\ queue = <<>>
 \* refinement: the queue model implements the abstract view used for trace validation
-Abs == INSTANCE ChanAbs WITH cfg <- [ns |-> NS, nr |-> NR, msgs |-> Msgs], announced <- announced, nextSend <- nextSend,
-                              received <- received, closed <- closed, gotNil <- gotNil
+\* the latest value receiver r has announced from sender s
+LastFromOf(r, s) == LET idx == {k \in 1..Len(received[r]) : received[r][k][1] = s} IN
+                    IF idx = {} THEN 0 ELSE received[r][CHOOSE k \in idx : \A j \in idx : j <= k][2]
+Abs == INSTANCE ChanAbs WITH cfg <- [ns |-> NS, nr |-> NR, msgs |-> Msgs], nextSend <- nextSend,
+                              got <- AllReceived, lastFrom <- [r \in Receivers |-> [s \in Senders |-> LastFromOf(r, s)]],
+                              closed <- closed, gotNil <- gotNil
 AbsSpec == Abs!AInit([ns |-> NS, nr |-> NR, msgs |-> Msgs]) /\ [][Abs!ANext]_(Abs!avars)
 Quiescent == (\A r \in Receivers: gotNil[r]) => (AllReceived = {<<s, i>> : s \in Senders, i \in 1..Msgs})
 EventuallyAllDelivered == <>(\A r \in Receivers: gotNil[r])
